@@ -639,6 +639,9 @@ def _handle_refuted(contract, case, cid, S, p, pi, hyps, goal, v, oname, full, r
                     break
                 m = s.model()
                 envs.append((f"model#{k+2}", _model_env(m, S.symbols)))
+    if envs and any(type(x) is SymBool for x in S.symbols.values()):
+        # facts the code never consulted are absent from the model: also try them as True
+        envs.append(("counter-model+unconsulted-facts-true", dict(envs[0][1], __default_bool__=True)))
     pre = p.pc[: p.ghost.get("_n_pre", 0)]
     for k in range(16):
         e = sample_env(S.symbols, pre, rng, tries=5)
@@ -655,7 +658,7 @@ def _handle_refuted(contract, case, cid, S, p, pi, hyps, goal, v, oname, full, r
             continue
         failed = [n for n, ok in r if not ok]
         att = {"input": label, "failed_obligations": failed}
-        if oname in failed or (failed and label == "counter-model"):
+        if oname in failed or (failed and label.startswith("counter-model")):
             viol["reproduced"] = True
             viol["env"] = env
             viol["native"] = detail
